@@ -2,6 +2,7 @@
         python -m sverif all [--tier ...]
         python -m sverif replay <violation.json>
         python -m sverif selftest [--prop C07] [-j N]
+        python -m sverif seeded [--prop C07] [--all-props]
 """
 
 import argparse
@@ -34,6 +35,9 @@ def main(argv=None):
     s.add_argument("--prop", default=None)
     s.add_argument("-j", type=int, default=16)
     s.add_argument("-v", action="store_true")
+    sd = sub.add_parser("seeded")
+    sd.add_argument("--prop", default=None)
+    sd.add_argument("--all-props", action="store_true")
     args = ap.parse_args(argv)
 
     if args.cmd == "check":
@@ -44,6 +48,11 @@ def main(argv=None):
             st = run_selftest(prop=args.prop, jobs=16, verbose=False)
             if st != 0:
                 print(f"ANALYSIS-ERROR property={args.prop} self-test of the checker failed (see above)")
+                code = 2
+            from .seeded import run_seeded
+
+            if run_seeded(prop=args.prop) != 0:
+                print(f"ANALYSIS-ERROR property={args.prop} a seeded change recorded as detected is no longer reported")
                 code = 2
         assert_no_scenic()
         return code
@@ -78,6 +87,10 @@ def main(argv=None):
         from .selftest import run_selftest
 
         return run_selftest(prop=args.prop, jobs=args.j, verbose=args.v)
+    if args.cmd == "seeded":
+        from .seeded import run_seeded
+
+        return run_seeded(prop=args.prop, all_props=args.all_props)
 
 
 def assert_no_scenic():
